@@ -71,7 +71,8 @@ CHECKS = {
         "deviations from a 4-5 point menu, all 3^8 streams for w=3, and a w=60 family (the only place the Page-Hinkley threshold is 1), over "
         "dimension x window_size x step x metric x online_scaling x ev_threshold x delta, are executed on the real detector; the model does its own "
         "fill/discard/slide schedule, standardisation, per-component supports, winsorising, histograms / Epanechnikov KDE + JS distance, maximum "
-        "over components and an exact Page-Hinkley recurrence; drift_state, counters, num_pcs (and the recorded score, defensively) are compared after every update.",
+        "over components and an exact Page-Hinkley recurrence; drift_state, counters, num_pcs (and the recorded score, defensively) are compared after every update. "
+        "Every stream is also run as level + unit * stream for unit ladders 1e-12..1e12, mixed units per column, levels up to +-65536 and int64 input.",
         "Trusted: sklearn PCA(ev_threshold); degenerate reference windows (no variance, equal eigenvalues, explained variance within 1e-9 of the "
         "threshold, zero KDE bandwidth) close the branch as undefined; scores within 1e-9 of a bin edge may fall either side.",
     ),
@@ -90,7 +91,9 @@ CHECKS = {
         "election types, column selectors on ndarray and DataFrame input: every event sequence up to the stated depth is executed; every member was "
         "deep-copied into a solo twin before the ensemble was built and is advanced alone under the same seed shim; after every event each member's "
         "complete canonical state must equal its twin's, drift_states / retraining_recs must report the members' values, the ensemble verdict must equal "
-        "the election model of C13 applied in insertion order, and the ensemble's own counters must count updates.",
+        "the election model of C13 applied in insertion order, and the ensemble's own counters must count updates. A long family (quiet default "
+        "histories of 10-36 updates, every choice of <= 1-2 positions replaced by a pulse for one member, reset() or set_reference) covers ConfirmedElection "
+        "waits of 0-12 updates.",
         "Trusted: the election model (models/election.py, itself checked by C13), the seed shim installed on member.update/set_reference; rotating "
         "design rather than the full product of mixes x elections x selectors x containers.",
     ),
@@ -109,7 +112,8 @@ CHECKS = {
         "2-row update, correct/wrong label, renamed/extra columns, 2-row label) are applied, to depth 8 (11 thorough), equal states merged by a full "
         "structural hash; a model of the protocol, the margin-density recurrence, the k-fold reference statistics and the confirmation rule predicts "
         "every observable after every call; refused calls must raise ValueError and leave the complete object state unchanged (frame check). Long "
-        "deviation-bounded streams add many-update histories.",
+        "deviation-bounded streams add many-update histories; further families: nine column-label schemes, labelled samples in every column order, "
+        "non-default row labels, sensitivity 0, references whose folds all share one non-dyadic statistic, default-constructed MD3.",
         "Trusted: sklearn KFold(k, shuffle, random_state=42) as documented in the code, the stub classifier; feature values of labelled samples are a "
         "fixed function of (index, round).",
     ),
@@ -167,14 +171,16 @@ CHECKS = {
         "(C/Fortran ndarray, strided view, single- and mixed-dtype DataFrame, DataFrame over a caller array); after exactly one call (every "
         "position) and after all calls the caller overwrites in place what it passed; arguments must be bitwise unchanged by the call and every "
         "public observable must equal that of a twin fed private copies. All injectors: every window x argument menu; input and dict arguments "
-        "unchanged, result of the input's container type sharing no memory with it.",
+        "unchanged, result of the input's container type sharing no memory with it. Univariate batches as vectors (1-D array, slice, strided view, "
+        "Series), containers refilled in place and passed again, and chains of 2-3 injector calls fed earlier results / earlier inputs.",
         "Trusted: an overwrite is an in-place write through the passed object; snapshots re-execute the recorded calls (a deepcopy would cut the aliasing under test).",
     ),
     "C16": (
         "bounded exhaustive enumeration of outcome sequences x label encodings / unused-argument variants, differential oracle against the canonical run",
         "DDM, EDDM, STEPD, ADWINAccuracy: all 2^10 outcome sequences under 14 encodings of (y_true, y_pred) and every choice of <= 2 positions "
         "re-encoded differently; LinearFourRates: all 4^5 cell sequences under 6 int-like encodings; every detector: junk values for the arguments "
-        "it documents as unused. The canonical and the variant detector run under identical seeds and every public observable is compared bit-for-bit after every update.",
+        "it documents as unused; all 169 ordered pairs of 13 one-element containers for (y_true, y_pred) on every outcome sequence of length 6-9, and container "
+        "pairs that change at every position. The canonical and the variant detector run under identical seeds and every public observable is compared bit-for-bit after every update.",
         "Trusted: agreement = equality of two labels of the same kind; a twin oracle cannot see defects that affect both runs equally (those are C05/C06).",
     ),
     "C20": (
@@ -182,7 +188,9 @@ CHECKS = {
         "All 8 injectors on float/int ndarrays and float/int/mixed/string-label DataFrames of 1-5 rows: every window 0 <= from <= to <= n, every "
         "column (pair), class (pair, incl. equal and absent), shift factor, probability vector; numpy.random.choice / dirichlet are replaced inside "
         "the harness by a stub that records the probability vector and is driven through every possible answer (all +-1 walks, all resample index "
-        "vectors). Oracles: container type, shape, labels, frame condition outside the window / other columns, exact documented effect inside, input unchanged.",
+        "vectors). Oracles: container type, shape, labels, frame condition outside the window / other columns, exact documented effect inside, input unchanged. "
+        "Every ordered pair (thorough: triple) of calls from a per-injector menu inside one execution, on one object or fresh objects; process-level state of the "
+        "injection modules is put back before every execution.",
         "Trusted: exactly one weighted np.random.choice per resample (draw protocol); the probability clause is judged on the weight vector handed "
         "to the generator; one recorded finding (Brownian noise truncated on integer data, pinned by test_brownian_noise_1).",
     ),
